@@ -144,7 +144,7 @@ def from_notes(pid):
             level = re.sub(r"^category\s+[`\"]*proof[`\"]*[.;]?\s*(text:)?\s*", "", level)
             level = re.sub(r"^[`\"]*proof[`\"]*\s*[—-]+\s*", "", level)
             level = re.sub(r"^[`\"]*proof[`\"]*\s+for\b", "Proof for", level)
-            level = level.strip('"`')
+            level = level.strip('"`').replace("**", "")
         if re.search(r"trusted|not verified|not covered|modelled rather", head, re.I) and trusted is None:
             trusted = " ".join(body.strip().split())
     if not level:
